@@ -153,7 +153,7 @@ def gen_spec(seed: int, config: str | None = None) -> dict:
         if shape == "bare":
             # the data is the value itself (None, a scalar, a string, a container): the serial travels in the recipient
             data = data_v if rng.random() < 0.8 else rng.choice([None, 0, "", False, [], {}])
-            to = f"#{serial}#" + (to or "")
+            to = f"\u00a7{serial}\u00a7" + (to or "")  # U+00A7 is in none of the generator's alphabets
         else:
             data = [serial, data_v] if shape == "list" else {"s": serial, "v": data_v}
         if rng.random() < 0.25:
@@ -517,7 +517,7 @@ class NodeRunner:
         serial = None
         data = getattr(p, "data", None)
         try:
-            m = re.match(r"#(\d+)#", str(getattr(p, "to", "") or ""))
+            m = re.match("\u00a7(\\d+)\u00a7", str(getattr(p, "to", "") or ""))
             if m:
                 serial = int(m.group(1))
             elif isinstance(data, list) and data and isinstance(data[0], int):
@@ -525,7 +525,7 @@ class NodeRunner:
             elif isinstance(data, dict) and isinstance(data.get("s"), int):
                 serial = data["s"]
             if serial is None:
-                m = re.match(r"#(\d+)#", str(getattr(p, "to", "") or ""))
+                m = re.match("\u00a7(\\d+)\u00a7", str(getattr(p, "to", "") or ""))
                 if m:
                     serial = int(m.group(1))
         except Exception:  # noqa: BLE001
@@ -1230,7 +1230,7 @@ def shrink_candidates(spec: dict):
             if op["op"] != "send":
                 continue
             if op["to"] is not None:
-                m = re.match(r"#\d+#", op["to"]) if isinstance(op["to"], str) else None
+                m = re.match("\u00a7\\d+\u00a7", op["to"]) if isinstance(op["to"], str) else None
                 if m is None:
                     s = copy.deepcopy(spec)
                     s["nodes"][ni]["script"][oi]["to"] = None
@@ -1240,7 +1240,7 @@ def shrink_candidates(spec: dict):
                     s["nodes"][ni]["script"][oi]["to"] = m.group(0)
                     yield s
             data = op["data"]
-            bare = isinstance(op["to"], str) and re.match(r"#\d+#", op["to"]) is not None
+            bare = isinstance(op["to"], str) and re.match("\u00a7\\d+\u00a7", op["to"]) is not None
             wrapped_list = not bare and isinstance(data, list) and len(data) == 2 and data[0] == op["serial"]
             wrapped_dict = not bare and isinstance(data, dict) and data.get("s") == op["serial"] and "v" in data
             inner = data if bare else (data[1] if wrapped_list else (data["v"] if wrapped_dict else None))
